@@ -111,6 +111,9 @@ def check_predict(chk, rep, repo, cls, fields):
     dens = None
     okc = False
     # the neighbour position read from the index buffer: int(N[r]), N[r].item(), or N[r] itself (an integer-typed buffer)
+    if sc.N is None:
+        raise AnalysisError(f"{cls}.predict: the scan keeps no index buffer the rules recognise (rule KNN-pair reports the store "
+                            "that is missing); the read-out of the neighbours cannot be followed")
     int_buffer = sc.N[0] == "alloc" and dict(sc.N[3]).get("dtype") in (("mod", "numpy.intp"), ("mod", "numpy.int64"), ("builtin", "int"),
                                                                           ("mod", "numpy.int_"), ("mod", "numpy.int32"))
     for cand_nb in (nb,) + ((("call", ("attr", ("idx", sc.N, r), "item"), (), ()), ("idx", sc.N, r)) if int_buffer else ()):
